@@ -21,4 +21,22 @@ PROPS = {
         ],
         "trusted_base": ["model file: lean/I2P/Data.lean"],
     },
+    "C13": {
+        "suites": "C13",
+        "assumptions": COMMON_ASSUME + [
+            "encoding/base32 and encoding/base64 are modelled as observed (bit-level Lean codec validated differentially)",
+            "at the 10 MiB limit sizes only the guard decision and the output length are compared with the model",
+        ],
+        "trusted_base": ["model file: lean/I2P/Base.lean"],
+    },
+    "C15": {
+        "suites": "C15",
+        "assumptions": COMMON_ASSUME + [
+            "time.Unix/UnixMilli/UnixNano, Time.Add (truncating split of the Duration, saturating addSec), Time.After/Before are "
+            "modelled on (seconds, nanoseconds) pairs with explicit int64 wrap-around; validated differentially",
+            "time.Now() is a parameter of the model; IsExpired is compared with the library at clock-relative expiries "
+            "at least 3 s away from the clock reading, where the outcome depends on the offset only",
+        ],
+        "trusted_base": ["model files: lean/I2P/Data.lean, lean/I2P/Time.lean"],
+    },
 }
